@@ -204,9 +204,20 @@ class Loader(yaml.SafeLoader):
             if (not issubclass(recognized_type, enum.Enum)
                     and not is_string_like(recognized_type)):
                 for attr_name, type_, _ in class_subobjects(recognized_type):
+                    if not isinstance(node, yaml.MappingNode):
+                        raise RecognitionError((
+                            '{}\nExpected a mapping here. There is probably'
+                            ' something wrong with your _yatiml_recognize()'
+                            ' or _yatiml_savorize() function.').format(
+                                node.start_mark))
                     cnode = Node(node)
                     if cnode.has_attribute(attr_name):
-                        subnode = cnode.get_attribute(attr_name)
+                        try:
+                            subnode = cnode.get_attribute(attr_name)
+                        except SeasoningError as e:
+                            raise RecognitionError(
+                                    '{}\n{}'.format(
+                                        node.start_mark, e.args[0]))
                         new_subnode = self.__process_node(
                             subnode.yaml_node, type_)
                         cnode.set_attribute(attr_name, new_subnode)
